@@ -164,7 +164,7 @@ func (g *G) world(nDev, nReq int) (*table, []string) {
 }
 
 func post(h http.Handler, body string) (int, string) {
-	a := send(h, body)
+	a := sendUnwatched(h, body)
 	if a.panicked {
 		return -1, "panic: " + a.garbage
 	}
